@@ -5,21 +5,22 @@
 # BQSIM_REPO, prints one line per property (DETECTED / missed), removes the worktree.  Evidence files written
 # during these runs are restored afterwards (they must describe runs against /repo itself).
 set -u
+ROOT=$(cd "$(dirname "$(readlink -f "$0")")/.." && pwd)
 PATCH=$(readlink -f "$1"); RUNS=$2; shift 2
 W=$(mktemp -d /tmp/bqsim-mut-XXXXXX)
 rmdir "$W"
 git -C /repo worktree add --detach -q "$W" HEAD || exit 2
 trap 'git -C /repo worktree remove --force "$W" >/dev/null 2>&1; rm -rf "$W"' EXIT
 if ! git -C "$W" apply "$PATCH"; then echo "PATCH DOES NOT APPLY"; exit 2; fi
-SAVE=$(mktemp -d /tmp/bqsim-ev-XXXXXX); cp /verif/evidence/*.json "$SAVE"/ 2>/dev/null
+SAVE=$(mktemp -d /tmp/bqsim-ev-XXXXXX); cp $ROOT/evidence/*.json "$SAVE"/ 2>/dev/null
 for P in "$@"; do
   T0=$(date +%s)
-  OUT=$(BQSIM_REPO="$W" /venv/bin/python /verif/run_check.py "$P" --tier "${TIER:-quick}" --runs "$RUNS" 2>&1); RC=$?
+  OUT=$(BQSIM_REPO="$W" /venv/bin/python $ROOT/run_check.py "$P" --tier "${TIER:-quick}" --runs "$RUNS" 2>&1); RC=$?
   T1=$(date +%s)
   SIGS=$(echo "$OUT" | grep -o 'signature: .*' | sort -u | tr '\n' ';')
   if [ $RC -eq 1 ]; then echo "$P DETECTED rc=1 in $((T1-T0))s  $SIGS"
   elif [ $RC -eq 0 ]; then echo "$P missed rc=0 in $((T1-T0))s"
   else echo "$P HARNESS rc=$RC"; echo "$OUT" | tail -15; fi
-  rm -f /verif/replays/$P-*.json
+  rm -f $ROOT/replays/$P-*.json
 done
-cp "$SAVE"/*.json /verif/evidence/ 2>/dev/null; rm -rf "$SAVE"
+cp "$SAVE"/*.json $ROOT/evidence/ 2>/dev/null; rm -rf "$SAVE"
